@@ -154,6 +154,11 @@ pub fn lexer(input: TokenStream) -> TokenStream {
         }
     }
 
+    #[cfg(lexgen_verif)]
+    if init_dfa.is_none() {
+        verif::append("nfa", nfa::verif::nfa_json(&unnamed_nfa));
+    }
+
     let mut dfa = match init_dfa {
         Some(init_dfa) => init_dfa,
         None => nfa_to_dfa(&unnamed_nfa),
@@ -229,6 +234,9 @@ fn compile_rule_set(
             },
         }
     }
+
+    #[cfg(lexgen_verif)]
+    verif::append("nfa", nfa::verif::nfa_json(&nfa));
 
     nfa_to_dfa(&nfa)
 }
